@@ -5,6 +5,7 @@ CONSTANTS
   Periods <- PeriodsB
   MaxNow = 4
   EnvOps = {"stop", "fail", "busy", "abort"}
+  Stalls = {}
   VirtualClock = TRUE
   Instant = FALSE
   UnstartedKillsInterval = TRUE
